@@ -161,6 +161,19 @@ pub fn dispatch(which: &str) -> String {
                 Ok(r) => format!("OK {:?}", r.map_err(|e| format!("{:?}", e))).chars().take(80).collect(),
             }
         }
+        "ignored_field_layout" => crate::abi_fixed::ignored_field_layout(),
+        "async_ledger" => {
+            let dir = std::env::temp_dir().join(format!("sfh_async_ledger_{}", std::process::id()));
+            let _ = std::fs::remove_dir_all(&dir);
+            let r1 = savefile_abi::verify_compatiblity::<dyn crate::abi_fixed::AsyncIface>(dir.to_str().unwrap());
+            let r2 = savefile_abi::verify_compatiblity::<dyn crate::abi_fixed::AsyncIface>(dir.to_str().unwrap());
+            let _ = std::fs::remove_dir_all(&dir);
+            match (r1, r2) {
+                (Ok(()), Ok(())) => "OK both runs pass".to_string(),
+                (Ok(()), Err(e)) => format!("DEFECT second run of an unchanged async interface fails: {:?}", e).chars().take(200).collect(),
+                (a, b) => format!("OTHER {:?} {:?}", a.is_ok(), b.is_ok()),
+            }
+        }
         _ => format!("UNKNOWN-KF {}", which),
     }
 }
